@@ -91,7 +91,11 @@ func (s *SecureChannel) EncryptUserPassword(policyURI, password string, cert, no
 		return nil, "", err
 	}
 
-	enc, err := uapolicy.Asymmetric(policyURI, s.cfg.LocalKey, remoteKey)
+	// The password is encrypted with the key of the server certificate. The
+	// client key takes no part in it and must not be subjected to the key size
+	// limits of the user token policy, which can differ from the policy of the
+	// secure channel the client key was chosen for.
+	enc, err := uapolicy.Asymmetric(policyURI, nil, remoteKey)
 	if err != nil {
 		return nil, "", err
 	}
